@@ -429,6 +429,15 @@ def main():
     ok, binp, txt = build_harness()
     if not ok:
         log('harness build failed against the current /repo tree:\n' + txt)
+        if re.search(r'_test\.go:\d+:\d+: ', txt) and os.path.exists(os.path.join(REPO, 'go.mod')):
+            # the tree compiles for itself but no longer offers what the harness calls (an exported function, a hook, a type
+            # changed shape): the tie between model and code cannot be established, so nothing shows that the property holds.
+            # Reported like any other broken correspondence for which no failing input was found.
+            rp = write_replay(pid, 'unproved', dict(property=pid, seed=seed, tier=tier, what='property no longer shown to hold',
+                                                    broken=[dict(kind='correspondence', what='the harness does not compile against the current tree '
+                                                                 '(the code under test changed an interface the correspondence check calls)', log=txt[-3000:])]))
+            print('VIOLATION property=%s replay=%s no-failing-input-found' % (pid, rp))
+            return 1
         return 2
 
     outdir = os.path.join(WORK, 'run', '%s-%d' % (pid, os.getpid()))
